@@ -17,6 +17,8 @@ BOUNDS = {
     "quick": {"nestings": "every nesting of && || ?: with <= 3 operand positions; ! on leaves (<= 2 positions), on one inner node and on the root",
               "operand outcomes": "true/false/error decided by symbolic data at every position simultaneously (3^k classes per program covered by path splitting), "
                                   "error kinds: div-by-zero, list index, missing map key, undeclared name, no-overload, error raised inside a map() macro, int(infinity) (OverflowError), int(bad text) and uint(negative) (ValueError); non-boolean int operands",
+              "spellings": "fully parenthesised, and the fewest parentheses CEL's grammar allows (every 3-position tree; un-parenthesised `||` / `&&` chains of 4 operands and else-if chains of 2-3 `?:` links, "
+                           "with neighbouring failing / non-boolean operands before an absorbing one)",
               "all/exists": "lists of length 0..3 with a symbolic element per position", "routes": "both runners + bare celtypes.logical_* functions"},
     "thorough": {"nestings": "<= 4 operand positions (every && || ?: shape; ! on leaves up to 3 positions, on inner nodes and root), 5 positions (5 sampled shapes)",
                  "all/exists": "lists of length 0..5", "routes": "same"},
@@ -133,6 +135,25 @@ def src_of(t, kinds):
     raise ValueError(t)
 
 
+def src_min(t, kinds, ctx="expr"):
+    """the same tree written with the fewest parentheses CEL's grammar allows (`?:` right-associative and lowest, then `||`, then `&&`,
+    both left-associative): un-parenthesised chains `a || b || c`, `a && b && c`, `c1 ? x : c2 ? y : z`"""
+    if t[0] == "leaf":
+        return leaf_src(kinds[t[1]], t[1])
+    if t[0] == "not":
+        return f"!({src_min(t[1], kinds)})" if t[1][0] != "leaf" else f"!{leaf_src(kinds[t[1][1]], t[1][1])}"
+    if t[0] == "and":
+        s = f"{src_min(t[1], kinds, 'and-left')} && {src_min(t[2], kinds, 'and-right')}"
+        return s if ctx in ("expr", "or-left", "or-right", "and-left") else f"({s})"
+    if t[0] == "or":
+        s = f"{src_min(t[1], kinds, 'or-left')} || {src_min(t[2], kinds, 'or-right')}"
+        return s if ctx in ("expr", "or-left") else f"({s})"
+    if t[0] == "cond":
+        s = f"{src_min(t[1], kinds, 'or-left')} ? {src_min(t[2], kinds, 'or-left')} : {src_min(t[3], kinds, 'expr')}"
+        return s if ctx == "expr" else f"({s})"
+    raise ValueError(t)
+
+
 def _and(cx, cy):
     I = z3.IntVal
     return z3.If(z3.Or(cx == F, cy == F), I(F),
@@ -222,6 +243,25 @@ def programs(tier):
             nt, _ = number(t)
             for kinds in kind_assignments(k, "thorough" if nk > 4 else "quick")[:nk]:
                 progs.append((nt, kinds))
+    progs = [(t, k, False) for t, k in progs]
+    # the same trees in their un-parenthesised spelling (chains of `||`, `&&`, else-if chains of `?:`): every 3-position tree, and
+    # 4/5-position chains whose neighbouring operands both fail / are non-boolean before an absorbing operand
+    L = ("leaf",)
+    flat = []
+    for t in trees(3, "none"):
+        nt, _ = number(t)
+        for kinds in (("int", "int", "bool"), ("div", "key", "bool"), ("bool", "int", "div"), ("int", "bool", "int")):
+            flat.append((nt, kinds, True))
+    chains = [(("or", ("or", ("or", L, L), L), L), [("bool", "int", "int", "bool"), ("div", "key", "idx", "bool"), ("noov", "undecl", "bool", "int")]),
+              (("and", ("and", ("and", L, L), L), L), [("bool", "int", "int", "bool"), ("div", "key", "idx", "bool"), ("noov", "undecl", "bool", "int")]),
+              (("or", ("or", L, ("and", L, L)), L), [("int", "int", "div", "bool")]),
+              (("cond", L, L, ("cond", L, L, L)), [("int", "int", "bool", "int", "int"), ("div", "int", "int", "int", "int"), ("bool", "int", "key", "bool", "div")]),
+              (("cond", L, L, ("cond", L, L, ("cond", L, L, L))), [("bool", "int", "int", "int", "bool", "int", "int")])]
+    for t, ks in chains:
+        nt, _ = number(t)
+        for kinds in ks:
+            flat.append((nt, kinds, True))
+    progs += flat
     if tier == "thorough":
         # sampled 5-position shapes: combs and balanced trees, mixed operators
         L = ("leaf",)
@@ -231,7 +271,8 @@ def programs(tier):
         for t in shapes:
             nt, _ = number(t)
             for kinds in kind_assignments(5, "quick")[:3]:
-                progs.append((nt, kinds))
+                progs.append((nt, kinds, False))
+                progs.append((nt, kinds, True))
     return progs
 
 
@@ -253,9 +294,9 @@ def run_task(task, kf):
     if task["what"] == "prog":
         ps = programs(task["tier"])[task["lo"]:task["hi"]]
         first = True
-        for t, kinds in ps:
+        for t, kinds, flat in ps:
             for runner in common.RUNNERS:
-                out.append(explore.explore(_prog_harness(t, kinds, runner), kf, profile_root=loader.SRC if first else None))
+                out.append(explore.explore(_prog_harness(t, kinds, runner, flat), kf, profile_root=loader.SRC if first else None))
                 first = False
     elif task["what"] == "macro":
         for pred in ("div", "key"):
@@ -281,9 +322,9 @@ def _classify(kind, val):
     return None, None
 
 
-def _prog_harness(t, kinds, runner):
+def _prog_harness(t, kinds, runner, flat=False):
     celpy, ct, ev = common.mods()
-    src = src_of(t, kinds)
+    src = src_min(t, kinds) if flat else src_of(t, kinds)
     cls, val, pre = spec_of(t, kinds)
     k = len(kinds)
     vars = {f"x{i}": z3.Int(f"x{i}") for i in range(k)}
@@ -317,7 +358,7 @@ def _prog_harness(t, kinds, runner):
         return obs
 
     def witness(vals):
-        return {"check": "c02.program", "args": enc({"tree": t, "kinds": list(kinds), "runner": runner,
+        return {"check": "c02.program", "args": enc({"tree": t, "kinds": list(kinds), "runner": runner, "flat": flat,
                                                      "xs": [vals[f"x{i}"] for i in range(k)]})}
 
     return Harness(id=f"C02/prog@{runner}:{src}", vars=vars, pre=pre, run=run, witness=witness, max_paths=500)
